@@ -279,7 +279,6 @@ theorem append_dyn_sound (E : Env) (as : ASlots) (vs : Slots) (td : TD) (c : Cal
 /-- **finding classes of clauses (a)/(k)**, decidable on the argument kinds of the call:
     * `pop`: the array kind has a known index that must be present (`type_def` = argument kind);
     * `slice`: an argument that is exactly an array with known indices (same reason);
-    * `mod`: constant integer modulus with a dividend that is not exactly `integer`;
     * `compact`, `flatten`: an argument that may be an array but is not exactly one (`.p`);
     * `values`, `push`: outside the hypotheses of C19's union theorem (`valuesOk`, `pushDynOk`;
       they hold for `any`, for literals and for every kind without `json` unknowns); `push` onto a
@@ -299,7 +298,6 @@ def soundClass (F : Fn) (as : ASlots) : Bool :=
   match F with
   | .pop => !(arrayCol k0).knownOptional
   | .slice => !(k0.isBytes || !k0.isArray || (arrayCol k0).known.isEmpty)
-  | .mod => (match aconst as 1 with | some (.int _) => !k0.isInteger | _ => false)
   | .compact | .flatten => !(k0.isArray || !k0.hasArr)
   | .values => !valuesOk k0
   | .push => !(isLitArray as || pushDynOk k0 (akind as 1))
@@ -326,10 +324,7 @@ theorem sound_partial (E : Env) (F : Fn) (as : ASlots) (vs : Slots) (td : TD) (c
       cases hk : (arrayCol (akind as 0)).known with
       | nil => rfl
       | cons _ _ _ => simp [hk, KList.isEmpty] at h
-  case mod =>
-    refine mod_sound_partial E as vs td c ?_
-    intro i hi
-    simpa [soundClass, hi] using h
+  case mod => exact mod_sound E as vs td c
   case compact =>
     refine compact_flatten_sound_partial E .compact (Or.inl rfl) as vs td c ?_
     simp only [soundClass, Bool.not_eq_false', Bool.or_eq_true, Bool.not_eq_true'] at h
